@@ -254,6 +254,9 @@ class C2Server(AbstractC2, discriminator="c2-server"):
             c2_payload=C2Payload.INPUT, c2_command=given_command, command_options=command_options.model_dump()
         )
 
+        # the output of an earlier command must not be mistaken for the output of this one
+        self.current_command_output = None
+
         if self.send(
             payload=command_packet,
             dest_ip_address=self.c2_remote_connection,
